@@ -177,6 +177,13 @@ static void closeSocket(TcpAsyncCtx *tcpCtx, unsigned int lineNr) {
 		tcpCtx->socketReady = false;
 		/* Clear input buffer. */
 		tcpCtx->inLen = 0;
+		/* A partially sent request has to be sent from the beginning on the next connection. */
+		if (KSI_AsyncHandleList_length(tcpCtx->reqQueue) > 0) {
+			KSI_AsyncHandle *first = NULL;
+			if (KSI_AsyncHandleList_elementAt(tcpCtx->reqQueue, 0, &first) == KSI_OK && first != NULL) {
+				first->sentCount = 0;
+			}
+		}
 	}
 }
 
